@@ -421,7 +421,8 @@ func (e *env) doBuild(bi int) {
 // `back` positions below the tip is corrupted, the blocks above it are re-linked and
 // re-signed so that the forged branch is as long as the genuine one.
 func (e *env) doForge(tip, back, kind int) {
-	if tip >= len(e.blocks) || e.blocks[tip].kind != fNone || kind <= fNone || kind >= fMax {
+	// only genuine chains are forged: corrupting a corrupted block again could undo the corruption
+	if tip >= len(e.blocks) || !e.validPath(tip) || kind <= fNone || kind >= fMax {
 		e.x.Noop()
 		return
 	}
